@@ -165,16 +165,23 @@ def run(spec, R):
         if cd:
             targets = roots                                   # read_params returns the parsed targets list
             tset = set(targets)
-            bad = sorted({str(c) for cats in cd.values() for c in cats if c not in tset})
+            # the dictionary object is NOT inspected before it is used (inspection could consume it); what it must contain is
+            # read independently from the shipped file
+            raw = env.load_jsonnet(env.model_path(cfg))['cat_dict']
+            canon = lambda t: refcat.ref_print(refcat.ref_parse(t))      # noqa: E731
+            tcanon = {}
+            for i, c in enumerate(targets):
+                tcanon.setdefault(refcat.ref_print(refcat.to_ref(c)), i)
+            bad = sorted({t for cats in raw.values() for t in cats if canon(t) not in tcanon})
             R.count('shipped:dict-categories-in-inventory')
-            R.extra['shipped_dict_words'] = len(cd)
+            R.extra['shipped_dict_words'] = len(raw)
             R.extra['shipped_targets'] = len(targets)
             if bad:
                 R.violation('data:not-in-inventory', f'{cfg}: dictionary categories missing from the tag inventory of the same configuration: {bad[:5]}', {'missing': bad, 'config': cfg})
                 continue
             if len(set(targets)) != len(targets):
                 R.count('shipped:duplicate-targets')
-            words = sorted(cd)
+            words = sorted(raw)
             rng.shuffle(words)
             words += ['zzz-not-in-dict', 'qqq']
             doc = [[Token(word=w) for w in words]]
@@ -187,16 +194,13 @@ def run(spec, R):
             except Exception as e:
                 R.violation('catdict:not-applicable', f'shipped dictionary could not be applied: {e!r}', {})
                 continue
-            idx = {}
-            for i, c in enumerate(targets):
-                idx.setdefault(c, i)
             wrong = 0
             for ti, w in enumerate(words):
                 R.case(('shipped-word', w), True)
-                if w in cd:
+                if w in raw:
                     listed = np.zeros(len(targets), dtype=bool)
-                    for c in cd[w]:
-                        listed[idx[c]] = True
+                    for t in raw[w]:
+                        listed[tcanon[canon(t)]] = True
                     want = np.where(listed, before[ti], np.float32(-10e+32))
                 else:
                     want = before[ti]
@@ -204,7 +208,25 @@ def run(spec, R):
                     wrong += 1
                     if wrong <= 2:
                         R.violation('catdict:mask', f'shipped dictionary: row of {w!r} is not the expected mask', {'word': w})
-            R.count('filter:tokens-in-dict', len(cd))
+            R.count('filter:tokens-in-dict', len(raw))
+            # the same dictionary object serves every later batch of the session
+            w2 = words[:200]
+            tag2 = nrng.standard_normal((len(w2), len(targets))).astype(np.float32)
+            b2 = tag2.copy()
+            try:
+                apply_category_filters([[Token(word=w) for w in w2]], [ScoringResult(tag2, np.zeros((len(w2), len(w2) + 1), dtype=np.float32))], targets, cd)
+                R.count('filter:second-application-of-the-same-dictionary')
+                for ti, w in enumerate(w2):
+                    if w in raw:
+                        listed = np.zeros(len(targets), dtype=bool)
+                        for t in raw[w]:
+                            listed[tcanon[canon(t)]] = True
+                        if tag2[ti].tobytes() != np.where(listed, b2[ti], np.float32(-10e+32)).astype(np.float32).tobytes():
+                            R.violation('catdict:mask', f'second application of the shipped dictionary: row of {w!r} is not the expected mask',
+                                        {'word': w, 'application': 2})
+                            break
+            except Exception as e:
+                R.violation('catdict:not-applicable', f'second application of the shipped dictionary raised {e!r}', {})
             if dep.tobytes() != bdep.tobytes():
                 R.violation('catdict:dep-touched', 'dependency scores changed', {})
             R.sample({'shipped_document_words': len(words), 'first': words[:5]})
